@@ -78,6 +78,16 @@ def explore(ctx):
             if c.get('minv') is not None:
                 c['minv'] = max(-1, min(100, c['minv'] - lo))
             c['delta'] = min(c.get('delta', 0), 90)
+            big = rng.random() < 0.15
+            if big:
+                # the same picture far from zero: multiples of 4 from 2**25 on are exact in float32 (spacing 4) and in
+                # every 32/64-bit integer type, but 1 is absorbed there in single precision
+                c['vals'] = [2 ** 25 + 4 * v for v in c['vals']]
+                if c.get('minv') is not None:
+                    c['minv'] = 2 ** 25 + 4 * c['minv']
+                c['delta'] = 4 * c['delta']
+                c['crit'] = [x for x in c.get('crit', []) if x[0] not in ('sum', 'peak')]
+                ctx.count('large_magnitude_cases')
             shape = tuple(c['shape'])
             try:
                 d0, obs0 = impl.compute_obs(c)
@@ -91,11 +101,12 @@ def explore(ctx):
             key = (tuple(c['vals']), shape, c.get('minv'), c.get('delta'), str(c.get('crit'))) if (len(d0) >= 2 and len(set(kept)) < len(kept)) else None
             ctx.case_done(c, key, sample={'case': c, 'structures': len(d0)} if key else None)
             variants = []
-            for dt in rng.sample(DTYPES, 5):
+            pool = [dt for dt in DTYPES if not big or np.dtype(dt).newbyteorder('=').name in ('float32', 'float64', 'int32', 'int64', 'uint32', 'uint64')]
+            for dt in rng.sample(pool, min(5, len(pool))):
                 variants.append((dt, rng.choice(['C', 'F', 'T', 'strided', 'readonly']), False, False))
             variants.append(('float64', 'C', True, False))       # verbose
             variants.append(('float64', 'C', False, True))       # after other operations
-            variants.append((rng.choice(DTYPES), rng.choice(['F', 'T', 'strided']), rng.random() < 0.3, True))
+            variants.append((rng.choice(pool), rng.choice(['F', 'T', 'strided']), rng.random() < 0.3, True))
             shared_crit = None
             for dt, layout, verbose, history in variants:
                 tag = {'dtype': dt, 'layout': layout, 'verbose': verbose, 'history': history}
